@@ -776,6 +776,10 @@ class Evaluator:
             raise NotEval("sum")
         if name in ("int", "float", "bool", "abs"):
             a = A()
+            if name == "int" and len(a) == 1 and isinstance(a[0], (float, Fraction)) and not isinstance(a[0], bool):
+                return int(a[0])  # truncation towards zero, as Python does
+            if name == "int" and len(a) == 1 and isinstance(a[0], RF) and a[0].is_const():
+                return int(a[0].const_value())
             if name in ("int", "float") and len(a) == 1 and scalar(a[0]):
                 return a[0]
             if name == "bool" and len(a) == 1 and isinstance(a[0], (bool, int, type(None), list, tuple, str, set, frozenset, dict)):
